@@ -1,7 +1,7 @@
 #!/bin/sh
 # dev helper: run every seeded change against its check (3 lanes); results in /tmp/mutall_<id>.json
 cd "$(dirname "$0")/.."
-ls seeded | xargs -P 3 -I{} sh -c 'python3 dev/mutate.py {} > /tmp/mutall_{}.json 2>&1'
+ls seeded | xargs -P 4 -I{} sh -c 'python3 dev/mutate.py {} > /tmp/mutall_{}.json 2>&1'
 for f in /tmp/mutall_*.json; do id=$(basename $f .json | sed s/mutall_//); python3 - "$f" "$id" <<'PY'
 import json,sys
 try:
